@@ -169,12 +169,12 @@ pub fn check_text(ctx: &mut Ctx, text: &str, origin: &str) -> Result<(), Fail> {
 }
 
 // ----------------------------------------------------------------- generators
-const DICT: [&str; 70] = [
+pub const DICT: [&str; 70] = [
     "a", "b", "r0", "WHITESPACE", "COMMENT", "ANY", "SOI", "EOI", "PUSH", "PUSH_LITERAL", "PEEK", "PEEK_ALL", "POP", "POP_ALL", "DROP", "ASCII_DIGIT", "LETTER", "=", "{", "}", "(", ")", "[", "]",
     "_", "@", "$", "!", "&", "~", "|", "?", "*", "+", ",", "..", "^", "#t", "#", "-", "0", "1", "2", "3", "00", "2147483647", "2147483648", "4294967295", "4294967296", "99999999999999999999", "-1",
     "-2147483649", "\"a\"", "\"\"", "\"\\n\"", "\"\\x41\"", "\"\\xff\"", "\"\\u{41}\"", "\"\\u{D800}\"", "\"\\u{110000}\"", "\"\\u{1}\"", "\"\\q\"", "\"", "'a'", "'\\''", "'", "'ab'", "//", "/*", "é",
 ];
-const GAPS: [&str; 6] = ["", " ", " ", "\n", " // c\n", " /* c */ "];
+pub const GAPS: [&str; 6] = ["", " ", " ", "\n", " // c\n", " /* c */ "];
 
 fn tokenise(text: &str) -> Vec<String> {
     // rough lexer: identifiers/numbers, strings, char literals, single punctuation, whitespace runs
@@ -211,7 +211,7 @@ fn tokenise(text: &str) -> Vec<String> {
     out
 }
 
-fn mutate(text: &str, ops: &[(u8, u16, u16)]) -> String {
+pub fn mutate(text: &str, ops: &[(u8, u16, u16)]) -> String {
     let mut toks = tokenise(text);
     for (kind, at, what) in ops {
         if toks.is_empty() {
@@ -258,7 +258,7 @@ fn mutate(text: &str, ops: &[(u8, u16, u16)]) -> String {
     toks.concat()
 }
 
-fn corpus() -> Vec<String> {
+pub fn corpus() -> Vec<String> {
     let mut v = vec![];
     for p in [
         "/repo/meta/src/grammar.pest",
